@@ -15,8 +15,8 @@ LEAN_TARGETS = ['VivProps.C19']
 DRIVER = 'Timeline'
 REQUIRED_THEOREMS = [
     'init_sorted', 'init_times', 'init_event_at', 'init_order_invariant', 'init_perm_distinct',
-    'nextUpdate_pops_due', 'fire_once', 'fired_exactly_once', 'tick_sets_last_write_partial',
-    'compound_collision_combines', 'run_eq_spec', 'engine_fire_once', 'any_order', 'schedule_total',
+    'nextUpdate_pops_due', 'fire_once', 'fired_exactly_once', 'tick_sets_last_write',
+    'compound_collision_later_wins', 'run_eq_spec', 'engine_fire_once', 'any_order', 'schedule_total',
 ]
 ANCHORS = [
     ('vivarium/processes/timeline.py', ['nested_set', 'TimelineProcess.initialize_timeline',
@@ -29,7 +29,7 @@ ANCHORS = [
 BUDGET = {'quick': 1200, 'thorough': 30000}
 RULE = ('cases: (listed events ≤ 12 with integer times incl. negative/zero/duplicate times and '
         'several events between two ticks, timeline timestep 1..6, 1–3 Engine.update intervals, '
-        'initial clock, a permutation of the listing that keeps equal-time events in order) run '
+        'initial clock, scalar / list / dict values incl. several compound writes to one variable in one tick, a permutation of the listing that keeps equal-time events in order) run '
         'through a real Engine (add_timeline or direct construction; the driven variables are '
         'declared by a passive Step or by a second Process with its own timestep), and direct '
         'next_update call sequences with arbitrary non-decreasing clocks. thorough adds all '
@@ -41,8 +41,6 @@ ASSUMPTIONS = [
     'integer event times, timesteps (≥ 1) and run lengths (≥ 1): float arithmetic in run_for exact',
     'driven variables are declared (by another process) as leaf variables; their paths are '
     'prefix-free, have ≥ 2 elements, do not start with "global" and contain no "_…" keys',
-    'values written to one variable by two events due in the SAME tick are not both lists / both '
-    'dicts (deep_merge_combine_lists would combine them — candidate finding, see notes/C19.md)',
 ]
 CASE_TIMEOUT = 20.0
 
@@ -112,14 +110,11 @@ def gen_events(rng, paths, lo, hi, n):
 
 
 def add_compound(rng, events, paths):
-    """give compound (list / dict) values only to variables written by exactly one listed event"""
-    count = {}
-    for _, ch in events:
-        for p, _ in ch:
-            count[tuple(p)] = count.get(tuple(p), 0) + 1
+    """turn about half of the written values into lists / dicts — on any variable, also on
+    variables written by several events that fall due in the same tick (later one must win)"""
     for _, ch in events:
         for pv in ch:
-            if count[tuple(pv[0])] == 1 and rng.random() < 0.5:
+            if rng.random() < 0.5:
                 pv[1] = enc(gen_compound(rng))
 
 
@@ -149,7 +144,7 @@ def gen_sim(rng):
     paths = gen_paths(rng)
     n = rng.choice([0, 1, 2, 2, 3, 3, 4, 5, 6, 8, 10, 12])
     events = gen_events(rng, paths, clock0 - 3, clock0 + total + 2, n)
-    if rng.random() < 0.25:
+    if rng.random() < 0.35:
         add_compound(rng, events, paths)
     vars0 = [[p, enc(gen_scalar(rng))] for p in paths]
     if rng.random() < 0.5:
@@ -166,7 +161,7 @@ def gen_nu(rng):
     paths = gen_paths(rng)
     n = rng.choice([1, 2, 3, 4, 6, 9, 12])
     events = gen_events(rng, paths, -3, 20, n)
-    if rng.random() < 0.25:
+    if rng.random() < 0.35:
         add_compound(rng, events, paths)
     clocks = []
     c = rng.randrange(-5, 5)
@@ -249,11 +244,13 @@ def corpus():
         sim([[3, []], e(3, 1)], ts=2, runs=(6,)),
         {'kind': 'nu', 'events': [e(0, 1), e(10, 3), e(5, 2)], 'clocks': [0, 0, 7, 7, 30], 'dts': [1, 1, 2, 1, 1]},
         {'kind': 'nu', 'events': [[1, [[[], 1]]]], 'clocks': [0], 'dts': [1]},
-        # same-tick list/dict values on one variable: deep_merge_combine_lists combines them
-        # (candidate finding; model = code, oracle does not judge this case)
+        # regression (defect repaired by 00d1fc4): same-tick list/dict values on one variable were
+        # combined by deep_merge_combine_lists ([1,2] then [2,3] gave [1,2,3]); the later must win
         {'kind': 'nu', 'events': [e(1, {'l': [1, 2]}), e(2, {'l': [2, 3]}), e(3, {'d': [['u', 1]]}, 'b'),
                                   e(4, {'d': [['v', 2]]}, 'b')],
-         'clocks': [9], 'dts': [1], 'no_oracle': 'compound-collision'},
+         'clocks': [9], 'dts': [1]},
+        sim([e(1, {'l': [1, 2]}), e(2, {'l': [2, 3]}), e(3, {'d': [['u', 1]]}, 'b'),
+             e(4, {'d': [['v', 2]]}, 'b'), e(8, {'l': []})], ts=5, runs=(10,)),
     ]
 
 
@@ -400,6 +397,7 @@ def run_impl(case):
         except Exception as e:  # noqa
             return {'built': {'err': exc_name(e)}}
         obs = {'built': {'ok': {'timeline': _tl_obs(tp.timeline), 'ports': ports}}, 'calls': []}
+        params_before = _tl_obs(tp.parameters['timeline'])
         for c, dt in zip(case['clocks'], case['dts']):
             try:
                 upd = tp.next_update(dt, {'global': {'time': c}})
@@ -409,6 +407,7 @@ def run_impl(case):
             obs['calls'].append({'update': sort_enc(enc(upd)), 'left': _tl_obs(tp.timeline),
                                  'writes': sorted([[list(p), w] for p, w in _flat_update(upd).items()],
                                                   key=lambda pw: pw[0])})
+        obs['params_mutated'] = _tl_obs(tp.parameters['timeline']) != params_before
         return obs
     raise ValueError(case['kind'])
 
@@ -646,8 +645,8 @@ def oracle(case, impl):
     if has_empty:
         return fails
     _check_built(events, ib['ok']['timeline'], fails)
-    if case.get('no_oracle'):
-        return fails
+    if impl.get('params_mutated'):
+        fails.append('next_update changed the values of the listed events in the process parameters')
     hi = None
     for c, dt, call in zip(case['clocks'], case['dts'], impl['calls']):
         if 'err' in call:
@@ -718,7 +717,15 @@ def stats(results):
             if a - b >= 2:
                 multi += 1
                 break
-    return {'kinds': dict(kinds), 'events_per_timeline': dict(sorted(n_events.items())),
+    coll = 0
+    for r in results:
+        seen = {}
+        for _, ch in r['case']['events']:
+            for pth, v in ch:
+                if isinstance(v, dict):
+                    seen[tuple(pth)] = seen.get(tuple(pth), 0) + 1
+        coll += any(n >= 2 for n in seen.values())
+    return {'kinds': dict(kinds), 'variables_with_several_compound_writes': coll, 'events_per_timeline': dict(sorted(n_events.items())),
             'unsorted_listings': uns, 'duplicate_times': dup, 'several_due_in_one_tick': multi,
             'nonpositive_times': neg, 'truncated_last_tick': trunc,
             'permuted_reruns': sum(1 for r in results if isinstance(r['impl'], dict) and 'perm_rows' in r['impl'])}
@@ -765,12 +772,11 @@ LEVEL_TEXT = ('Lean 4 theorems, for all finite listings and all tick sequences (
               'permutation at all for distinct times); next_update pops exactly the events that are due; '
               'over any non-decreasing clock sequence every event is fired exactly once, at the first tick '
               'whose clock has reached its time, in time order, however many are due; a tick sets every '
-              'driven variable to its last due write; the trajectory is invariant under such '
+              'driven variable to its last due write, whatever the values (scalars, lists, dicts); the trajectory is invariant under such '
               'permutations; Engine.update terminates with ticks of the timestep plus a truncated last '
               'one. The model is tied to timeline.py and to a real Engine run by the correspondence check.')
 LEVEL_NOTE = ('Trusted: Lean kernel; axioms ⊆ {propext, Classical.choice, Quot.sound}; the hand-written '
-              'model of timeline.py, deep_merge_combine_lists and of the single-process tick loop of '
+              'model of timeline.py (nested_set, deep_merge_combine_lists for the ports) and of the single-process tick loop of '
               'Engine.update / leaf Store.apply_update, validated on every case against a real Engine. '
-              'tick_sets_last_write assumes scalar (non-list, non-dict) colliding values — see the '
-              'candidate finding in notes/C19.md. Float times are outside the model (integer times only).')
+              'Float times are outside the model (integer times only).')
 TECHNIQUE = 'Lean 4 proof by induction over listings and tick sequences + model/code correspondence (differential, real Engine)'
